@@ -5,7 +5,7 @@ Runs the check(s) against a MUTATED COPY of /repo in /tmp/mutlab (never touches 
 /tmp/mutlab/repo is re-synced from /repo, /tmp/mutlab/verif from /verif (with path deps rewritten), so builds are incremental.
 Prints CAUGHT/MISSED per check."""
 import subprocess, sys, os
-LAB = '/tmp/mutlab'
+LAB = os.environ.get('MUTLAB', '/tmp/mutlab')
 def sh(*a, **k): return subprocess.run(*a, **k)
 def sync():
     os.makedirs(LAB, exist_ok=True)
